@@ -81,4 +81,44 @@ example : ∀ p ∈ [Step.name "a/b".toList, .index 1, .name "~".toList, .name "
 example : rfcParse "/a/01/-".toList = some ["a".toList, "01".toList, "-".toList] ∧
     (∀ t ∈ ["a".toList, "01".toList, "-".toList], isExtensionToken t = false) := by decide
 
+/-! ### The library's negative index extension, stated outright (outside RFC 6901, where `-1` is no array index) -/
+
+theorem pyListGet_neg {α} (xs : List α) (k : Nat) (hk : 1 ≤ k) :
+    pyListGet xs (-(k : Int)) = if k ≤ xs.length then xs[xs.length - k]? else none := by
+  unfold pyListGet
+  have h0 : ¬ (0 : Int) ≤ -(k : Int) := by omega
+  simp only [h0, if_false]
+  by_cases h : k ≤ xs.length
+  · have h1 : -(xs.length : Int) ≤ -(k : Int) := by omega
+    have : ((xs.length : Int) + -(k : Int)).toNat = xs.length - k := by omega
+    simp only [h, h1, if_true, this]
+  · have h1 : ¬ -(xs.length : Int) ≤ -(k : Int) := by omega
+    simp only [h, h1, if_false]
+
+/-- A negative index token `-k` (k ≥ 1) counts from the end of an array: it resolves to the element `length - k`, and is
+    an index error when the array has fewer than `k` elements. On an object it is the member of that name, like any token. -/
+theorem negative_index_extension (xs : List J) (k : Nat) (hk : 1 ≤ k) :
+    getitem (.arr xs) (.idx (-(k : Int))) =
+      (if k ≤ xs.length then
+        match xs[xs.length - k]? with
+        | some v => .ok v
+        | none => .error .ptrIndex
+       else .error .ptrIndex) := by
+  simp only [getitem, pyListGet_neg xs k hk]
+  by_cases h : k ≤ xs.length
+  · simp only [h, if_true]; cases xs[xs.length - k]? <;> rfl
+  · simp only [h, if_false]; rfl
+
+example : getitem (.arr [.int 10, .int 20, .int 30]) (.idx (-1)) = .ok (.int 30) := by rfl
+example : getitem (.arr [.int 10]) (.idx (-2)) = .error .ptrIndex := by rfl
+
+/-! ### The open finding C04-KF1, as a kernel-checked counterexample of the statement without `StepInRange` -/
+
+/-- Without the range hypothesis the statement is false, of the model as of the code: the RFC 6901 pointer of the member
+    named `9007199254740992` (2^53) is refused when it is parsed, so the member cannot be addressed. -/
+theorem resolve_every_node_counterexample :
+    rfcEval (.obj [("9007199254740992".toList, .int 1)]) ["9007199254740992".toList] = some (.int 1) ∧
+    Pointer.parse (fun _ => none) true "/9007199254740992".toList = .error .ptrIndex := by
+  constructor <;> rfl
+
 end JP.Props.C04
